@@ -299,6 +299,9 @@ func DrawTable(t *rapid.T, idx int) TableSpec {
 		}
 	}
 	nr := rapid.IntRange(0, 6).Draw(t, "nRows")
+	// key value pools: plain ones, and ones that look like other parts of a lock key or of a joined key
+	// (a colon as in table:key; digit strings that concatenate to the same text: 1+"23" and 12+"3")
+	awkward := rapid.IntRange(0, 3).Draw(t, "awkwardKeys") == 0 || (tb.KeyShape == "composite" && rapid.Bool().Draw(t, "awkwardComposite"))
 	seenKey := map[string]bool{}
 	seenUk := map[string]bool{}
 	for i := 0; i < nr; i++ {
@@ -318,9 +321,16 @@ func DrawTable(t *rapid.T, idx int) TableSpec {
 			}
 		case "varchar":
 			row[0] = Lit{Kind: "str", S: []string{"k1", "K2", "test", "abcd", "a b", "z9"}[i]}
+			if awkward {
+				row[0] = Lit{Kind: "str", S: []string{"k1", "c:", "test", "x:y", "a b", "z9"}[i]}
+			}
 		default:
 			row[0] = Lit{Kind: "int", I: int64(i/2 + 1)}
 			row[1] = Lit{Kind: "str", S: []string{"x", "y"}[i%2]}
+			if awkward {
+				row[0] = Lit{Kind: "int", I: []int64{1, 12, 1, 12, 2, 2}[i]}
+				row[1] = Lit{Kind: "str", S: []string{"23", "3", "3", "33", "x", "y"}[i]}
+			}
 		}
 		key := ""
 		for j := range tb.PK {
@@ -736,6 +746,32 @@ func DrawStmt(t *rapid.T, tables []TableSpec, opt StmtOptions) Stmt {
 	return st
 }
 
+// dupInsert builds an INSERT of a key that already exists (rejected with error 1062).
+func dupInsert(t *rapid.T, tables []TableSpec) *Stmt {
+	for ti, tb := range tables {
+		if len(tb.Rows) == 0 {
+			continue
+		}
+		row := tb.Rows[rapid.IntRange(0, len(tb.Rows)-1).Draw(t, "dupRow")]
+		var cols, vals []string
+		var args []Lit
+		for j, c := range tb.Cols {
+			if row[j].Kind == "default" {
+				continue
+			}
+			cols = append(cols, c.Name)
+			if j < len(tb.PK) || row[j].Kind == "null" {
+				vals = append(vals, row[j].SQL())
+			} else {
+				vals = append(vals, "?")
+				args = append(args, row[j])
+			}
+		}
+		return &Stmt{Kind: "insert", Table: ti, SQL: fmt.Sprintf("INSERT INTO {T%d} (%s) VALUES (%s)", ti, strings.Join(cols, ", "), strings.Join(vals, ", ")), Args: args, InsCols: cols, Classes: []string{"duplicate-key"}}
+	}
+	return nil
+}
+
 func (b *sqlBuilder) freshKey(tb TableSpec, c ColSpec, r int) Lit {
 	n := int64(100 + r + 10*rapid.IntRange(0, 9).Draw(b.t, "fresh"))
 	if c.Base == "VARCHAR" {
@@ -765,6 +801,8 @@ type Branch struct {
 	Via      string `json:"via"`      // db | conn (pinned *sql.Conn)
 	Prepared bool   `json:"prepared"` // use PrepareContext + stmt.ExecContext
 	Stmts    []Stmt `json:"stmts"`
+	// KeepGoing: in an explicit transaction the caller ignores a failed statement and commits the rest
+	KeepGoing bool `json:"keep_going,omitempty"`
 }
 
 // Config is the undo configuration of a scenario.
@@ -844,6 +882,15 @@ func DrawScenario(t *rapid.T, o ScenarioOptions) Scenario {
 		}
 		for j := 0; j < ns; j++ {
 			br.Stmts = append(br.Stmts, DrawStmt(t, sc.Tables, o.Stmt))
+		}
+		if br.Mode == "tx" && ns >= 2 && rapid.IntRange(0, 3).Draw(t, "keepGoing") == 0 {
+			// a statement the database rejects (duplicate key) in the middle of a transaction that goes on
+			br.KeepGoing = true
+			dup := dupInsert(t, sc.Tables)
+			if dup != nil {
+				k := rapid.IntRange(0, len(br.Stmts)-1).Draw(t, "dupAt")
+				br.Stmts = append(br.Stmts[:k], append([]Stmt{*dup}, br.Stmts[k:]...)...)
+			}
 		}
 		sc.Branches = append(sc.Branches, br)
 	}
